@@ -245,6 +245,34 @@ pub fn run(thorough: bool, seed: u64, driver: &str, rep: &mut Report) {
                     return;
                 }
                 let n = st.tree.size();
+                // rescale by factors the integer model cannot carry (real code only): "every length multiplied by the factor", for the
+                // floats next to 1.0, tiny and huge factors, a negative one — both records of every branch, bit for bit
+                {
+                    let before = slots_of(&st.tree);
+                    for f in [1.0 + f64::EPSILON, 1.0 - f64::EPSILON / 2.0, 1.0 + 2.0 * f64::EPSILON, 0.1, -2.5, 1e-300, 3e200] {
+                        let mut t2 = st.tree.clone();
+                        t2.rescale(f);
+                        let after = slots_of(&t2);
+                        rep.count("rescale_by_non_integer_factors");
+                        let same = |a: f64, b: f64| (a.is_nan() && b.is_nan()) || a.to_bits() == b.to_bits();
+                        let mut bad = None;
+                        for (i, (b, a)) in before.iter().zip(after.iter()).enumerate() {
+                            match (b.parent_edge, a.parent_edge) {
+                                (None, None) => {}
+                                (Some(x), Some(y)) if same(x * f, y) => {}
+                                other => { bad = Some(format!("node {i}: child-side record {other:?} for factor {f:e}")); break; }
+                            }
+                            match (&b.child_edges, &a.child_edges) {
+                                (Some(x), Some(y)) if x.len() == y.len() && x.iter().zip(y.iter()).all(|(p, q)| p.0 == q.0 && same(p.1 * f, q.1)) => {}
+                                (None, None) => {}
+                                other => { bad = Some(format!("node {i}: parent-side records {other:?} for factor {f:e}")); break; }
+                            }
+                        }
+                        if let Some(b) = bad {
+                            rep.oracle("effect-rescale", "not-every-length-multiplied:non-integer-factor", &format!("{start}\nreal.rescale\t{f:e}"), &b);
+                        }
+                    }
+                }
                 let mut ops: Vec<String> = vec!["ar.compress".into(), "ar.ladderize".into(), format!("real.resolve\t{}", rng.next() % 1000)];
                 for k in [0i64, 2, 3, -1] {
                     ops.push(format!("ar.rescale\t{k}"));
